@@ -45,7 +45,7 @@ fn exhaustive(tier: Tier) -> Vec<GalCase> {
             let t = if scheme == Scheme::CKKS { 0 } else { ntt_prime(logn, 17, 0) };
             let ps = ParamSet { scheme, logn, moduli, t, expand_chain: true, special_flag: false, entropy: logn as u64 * 31 + 5 };
             let coeffs: Vec<(u8, u64)> = (0..n).map(|i| (7 + (i % 3) as u8, (i as u64 + 2).wrapping_mul(0x9e3779b97f4a7c15))).collect();
-            let cvals: Vec<(i32, i32)> = (0..n / 2).map(|i| ((i as i32 + 1) * 100_000_007, (i as i32 - 3) * 77_777_777)).collect();
+            let cvals: Vec<(i32, i32)> = (0..n / 2).map(|i| ((i as i32 + 1).wrapping_mul(100_000_007), (i as i32 - 3).wrapping_mul(77_777_777))).collect();
             for g in (1..2 * n).step_by(2) { for lvl in [0u16, 65535] {
                 out.push(GalCase { ps: ps.clone(), kind: GK::ApplyGalois, elt_sel: ((g / 2) * 65536 / n + 1) as u16, step: 0, keymode: 0, level_sel: lvl, coeffs: coeffs.clone(), cvals: cvals.clone(), flag: g % 4 == 1 });
             } }
